@@ -210,6 +210,10 @@ PROPS = {
                       "dispose:keyless", "dispose:not-enabled", "write:implicit-registration", "write:not-enabled",
                       "lookup:registered", "lookup:unknown", "lookup:not-enabled", "enable"],
                      "DataWriterAsync on a keyed and a keyless type, created enabled or not enabled, driven inside the deterministic simulation"),
+    "C37": graphprop("Qos", "MC_Qos", ["MC_Qos_%s.cfg" % k for k in ("writer", "reader", "topic", "publisher", "subscriber", "participant")],
+                     ["create:accepted", "create:inconsistent", "set:inconsistent", "set:immutable", "set:accepted-mutable",
+                      "set:accepted-immutable-before-enable", "set:inconsistent-and-immutable", "enable"],
+                     "entity under test on one participant, announced QoS read from the built-in readers of a second participant, both inside the deterministic simulation"),
     "C36": graphprop("Entities", "Entities", ["MC_Entities.cfg"],
                      ["delete:not-empty", "delete:topic-in-use", "delete:already-deleted", "use:deleted-entity", "delete-contained",
                       "delete:wrong-parent", "create:parent-deleted"],
